@@ -464,3 +464,433 @@ pub fn channel_latest_monitor_update_id<CM: crate::ln::channelmanager::AChannelM
 	let chan = peer_state.channel_by_id.get(channel_id)?.as_funded()?;
 	Some(chan.context.get_latest_monitor_update_id())
 }
+
+/// Driver facade over the crate-private [`crate::ln::outbound_payment::OutboundPayments`] state
+/// machine (H3, C03): owns one instance plus a pending-event queue, and re-exposes
+/// `add_new_pending_payment`, `add_new_awaiting_invoice`, `claim_htlc`, `finalize_claims`,
+/// `fail_htlc`, `abandon_payment`, `check_retry_payments`, `remove_stale_payments`,
+/// `insert_from_monitor_on_startup` and write/read of the map. Every call returns the events it
+/// pushed, as canonical text. One part = one single-hop path with a caller-chosen scid.
+pub mod outbound {
+	#![allow(missing_docs)]
+	use crate::blinded_path::payment::{BlindedPaymentPath, ReceiveTlvs};
+	use crate::events::Event;
+	use crate::ln::channel_state::ChannelDetails;
+	use crate::ln::channelmanager::{EventCompletionAction, HTLCSource, PaymentId};
+	use crate::ln::msgs::UpdateFailHTLC;
+	use crate::ln::onion_utils::{self, HTLCFailReason, LocalHTLCFailureReason};
+	use crate::ln::outbound_payment::{
+		OutboundPayments, PendingOutboundPayment, RecipientOnionFields, Retry, StaleExpiration,
+	};
+	use crate::ln::types::ChannelId;
+	use crate::routing::router::{
+		InFlightHtlcs, Path, PaymentParameters, Route, RouteHop, RouteParameters,
+		RouteParametersConfig, Router,
+	};
+	use crate::sign::{KeysManager, NodeSigner, ReceiveAuthKey, Recipient};
+	use crate::sync::Mutex;
+	use crate::types::features::{ChannelFeatures, NodeFeatures};
+	use crate::types::payment::{PaymentHash, PaymentPreimage, PaymentSecret};
+	use crate::util::logger::{Logger, Record, WithContext};
+	use crate::util::ser::{MaybeReadable, Writeable};
+	use alloc::collections::VecDeque;
+	use alloc::string::String;
+	use alloc::vec::Vec;
+	use bitcoin::secp256k1::{self, PublicKey, Secp256k1, SecretKey};
+	use core::time::Duration;
+
+	struct NoLog;
+	impl Logger for NoLog {
+		fn log(&self, _record: Record) {}
+	}
+
+	type Queue = VecDeque<(Event, Option<EventCompletionAction>)>;
+
+	/// Router whose answers are scripted by the caller (one entry per `find_route` call).
+	struct ScriptedRouter {
+		dest: PublicKey,
+		plan: Mutex<VecDeque<Option<Vec<u64>>>>,
+		calls: Mutex<Vec<(PaymentId, bool)>>,
+	}
+	impl Router for ScriptedRouter {
+		fn find_route(
+			&self, _payer: &PublicKey, _route_params: &RouteParameters,
+			_first_hops: Option<&[&ChannelDetails]>, _inflight_htlcs: InFlightHtlcs,
+		) -> Result<Route, &'static str> {
+			Err("unused")
+		}
+		fn find_route_with_id(
+			&self, _payer: &PublicKey, route_params: &RouteParameters,
+			_first_hops: Option<&[&ChannelDetails]>, _inflight_htlcs: InFlightHtlcs,
+			_payment_hash: PaymentHash, payment_id: PaymentId,
+		) -> Result<Route, &'static str> {
+			let next = self.plan.lock().unwrap().pop_front().unwrap_or(None);
+			self.calls.lock().unwrap().push((payment_id, next.is_some()));
+			match next {
+				Some(scids) if !scids.is_empty() => {
+					let n = scids.len() as u64;
+					let total = route_params.final_value_msat;
+					let paths = scids
+						.iter()
+						.enumerate()
+						.map(|(i, scid)| {
+							let amt = total / n + if i == 0 { total % n } else { 0 };
+							path(self.dest, *scid, amt)
+						})
+						.collect();
+					Ok(Route { paths, route_params: route_params.clone() })
+				},
+				_ => Err("scripted: no route"),
+			}
+		}
+		fn create_blinded_payment_paths<T: secp256k1::Signing + secp256k1::Verification>(
+			&self, _recipient: PublicKey, _local_node_receive_key: ReceiveAuthKey,
+			_first_hops: Vec<ChannelDetails>, _tlvs: ReceiveTlvs, _amount_msats: Option<u64>,
+			_secp_ctx: &Secp256k1<T>,
+		) -> Result<Vec<BlindedPaymentPath>, ()> {
+			Err(())
+		}
+	}
+
+	fn path(dest: PublicKey, scid: u64, amt_msat: u64) -> Path {
+		Path {
+			hops: alloc::vec![RouteHop {
+				pubkey: dest,
+				node_features: NodeFeatures::empty(),
+				short_channel_id: scid,
+				channel_features: ChannelFeatures::empty(),
+				fee_msat: amt_msat,
+				cltv_expiry_delta: 40,
+				maybe_announced_channel: true,
+			}],
+			blinded_tail: None,
+		}
+	}
+
+	fn ev_text(ev: &Event) -> String {
+		let hex = |id: &PaymentId| -> String {
+			id.0.iter().map(|b| alloc::format!("{:02x}", b)).collect()
+		};
+		match ev {
+			Event::PaymentSent { payment_id, payment_preimage, payment_hash, .. } => {
+				use bitcoin::hashes::{sha256, Hash};
+				let ok = sha256::Hash::hash(&payment_preimage.0).to_byte_array() == payment_hash.0;
+				alloc::format!(
+					"PaymentSent {} preimage_ok={}",
+					payment_id.as_ref().map(hex).unwrap_or_default(),
+					ok
+				)
+			},
+			Event::PaymentFailed { payment_id, reason, .. } => match reason {
+				Some(r) => alloc::format!("PaymentFailed {} {:?}", hex(payment_id), r),
+				None => alloc::format!("PaymentFailed {} None", hex(payment_id)),
+			},
+			Event::PaymentPathSuccessful { payment_id, path, .. } => alloc::format!(
+				"PaymentPathSuccessful {} {}",
+				hex(payment_id),
+				path.hops[0].short_channel_id
+			),
+			Event::PaymentPathFailed { payment_id, path, payment_failed_permanently, .. } => {
+				alloc::format!(
+					"PaymentPathFailed {} {} perm={}",
+					payment_id.as_ref().map(hex).unwrap_or_default(),
+					path.hops[0].short_channel_id,
+					payment_failed_permanently
+				)
+			},
+			other => {
+				let d = alloc::format!("{:?}", other);
+				alloc::format!("Other {}", d.chars().take(40).collect::<String>())
+			},
+		}
+	}
+
+	pub struct Facade {
+		payments: OutboundPayments,
+		events: Mutex<Queue>,
+		keys: KeysManager,
+		secp: Secp256k1<secp256k1::All>,
+		dest: PublicKey,
+		amt_msat: u64,
+		snapshot: (Vec<(PaymentId, Vec<u8>)>, Queue),
+	}
+
+	/// One entry of `pending_outbound_payments`: (id, variant name, remaining_parts(),
+	/// timer_ticks_without_htlcs / remaining timer ticks where the variant has them).
+	pub type Entry = (PaymentId, &'static str, usize, u64);
+
+	impl Facade {
+		/// `OutboundPayments::new(new_hash_map())` as in `ChannelManager::new`.
+		pub fn new(seed: [u8; 32], amt_msat_per_part: u64) -> Facade {
+			let secp = Secp256k1::new();
+			let dest = PublicKey::from_secret_key(&secp, &SecretKey::from_slice(&[7; 32]).unwrap());
+			Facade {
+				payments: OutboundPayments::new(crate::prelude::new_hash_map()),
+				events: Mutex::new(VecDeque::new()),
+				keys: KeysManager::new(&seed, 1, 1, true),
+				secp,
+				dest,
+				amt_msat: amt_msat_per_part,
+				snapshot: (Vec::new(), VecDeque::new()),
+			}
+		}
+
+		fn pushed<F: FnOnce(&Self)>(&self, f: F) -> Vec<String> {
+			let before = self.events.lock().unwrap().len();
+			f(self);
+			self.events.lock().unwrap().iter().skip(before).map(|(e, _)| ev_text(e)).collect()
+		}
+
+		fn source(&self, id: PaymentId, session_priv: [u8; 32], scid: u64) -> (HTLCSource, Path) {
+			let p = path(self.dest, scid, self.amt_msat);
+			let source = HTLCSource::OutboundRoute {
+				path: p.clone(),
+				session_priv: SecretKey::from_slice(&session_priv).unwrap(),
+				first_hop_htlc_msat: self.amt_msat,
+				payment_id: id,
+				bolt12_invoice: None,
+			};
+			(source, p)
+		}
+
+		/// `add_new_pending_payment` for a route with one single-hop path per scid; returns the
+		/// session privs (one per part) or the error's Debug text (`DuplicatePayment`).
+		pub fn add(
+			&self, id: PaymentId, hash: PaymentHash, scids: &[u64], retries: Option<u32>,
+		) -> Result<Vec<[u8; 32]>, String> {
+			let total = self.amt_msat * scids.len() as u64;
+			let params = PaymentParameters::from_node_id(self.dest, 40);
+			let route = Route {
+				paths: scids.iter().map(|s| path(self.dest, *s, self.amt_msat)).collect(),
+				route_params: RouteParameters::from_payment_params_and_value(params, total),
+			};
+			self.payments
+				.add_new_pending_payment(
+					hash,
+					RecipientOnionFields::secret_only(PaymentSecret([1; 32]), total),
+					id,
+					None,
+					&route,
+					retries.map(Retry::Attempts),
+					&self.keys,
+					0,
+					None,
+				)
+				.map_err(|e| alloc::format!("{:?}", e))
+		}
+
+		/// `add_new_awaiting_invoice(id, TimerTicks(ticks), ..)`
+		pub fn await_invoice(&self, id: PaymentId, ticks: u64) -> Result<(), ()> {
+			self.payments.add_new_awaiting_invoice(
+				id,
+				StaleExpiration::TimerTicks(ticks),
+				Retry::Attempts(0),
+				RouteParametersConfig::default(),
+				None,
+			)
+		}
+
+		/// `claim_htlc`
+		pub fn claim(
+			&self, id: PaymentId, preimage: PaymentPreimage, session_priv: [u8; 32], scid: u64,
+			from_onchain: bool,
+		) -> Vec<String> {
+			self.pushed(|s| {
+				let (_, p) = s.source(id, session_priv, scid);
+				let logger = WithContext::from(&NoLog, None, None, None);
+				let mut action = None;
+				s.payments.claim_htlc(
+					id,
+					preimage,
+					None,
+					SecretKey::from_slice(&session_priv).unwrap(),
+					p,
+					from_onchain,
+					&mut action,
+					&s.events,
+					&logger,
+				);
+			})
+		}
+
+		/// `finalize_claims` for one source
+		pub fn finalize(&self, id: PaymentId, session_priv: [u8; 32], scid: u64) -> Vec<String> {
+			self.pushed(|s| {
+				let (source, _) = s.source(id, session_priv, scid);
+				s.payments.finalize_claims(core::iter::once((source, Vec::new())), &s.events);
+			})
+		}
+
+		/// `fail_htlc`; `permanent` selects a failure from the recipient
+		/// (`IncorrectPaymentDetails`, encrypted with the hop's shared secret) instead of a
+		/// locally generated `TemporaryChannelFailure`.
+		pub fn fail(
+			&self, id: PaymentId, hash: PaymentHash, session_priv: [u8; 32], scid: u64,
+			permanent: bool,
+		) -> Vec<String> {
+			self.pushed(|s| {
+				let (source, p) = s.source(id, session_priv, scid);
+				let sk = SecretKey::from_slice(&session_priv).unwrap();
+				let reason = if permanent {
+					let ss = onion_utils::verif::shared_secrets(&s.secp, &p, &sk);
+					let mut data = alloc::vec![0u8; 12];
+					data[..8].copy_from_slice(&s.amt_msat.to_be_bytes());
+					let pkt = onion_utils::build_failure_packet(
+						&ss[0],
+						LocalHTLCFailureReason::IncorrectPaymentDetails,
+						&data,
+						0,
+					);
+					HTLCFailReason::from_msg(&UpdateFailHTLC {
+						channel_id: ChannelId([0; 32]),
+						htlc_id: 0,
+						reason: pkt.data,
+						attribution_data: pkt.attribution_data,
+					})
+				} else {
+					HTLCFailReason::from_failure_code(LocalHTLCFailureReason::TemporaryChannelFailure)
+				};
+				let logger = WithContext::from(&NoLog, None, None, None);
+				let mut action = None;
+				s.payments.fail_htlc(
+					&source, &hash, &reason, &p, &sk, &id, [3; 32], &s.secp, &s.events, &mut action,
+					&logger,
+				);
+			})
+		}
+
+		/// `abandon_payment(id, UserAbandoned)`
+		pub fn abandon(&self, id: PaymentId) -> Vec<String> {
+			self.pushed(|s| {
+				s.payments.abandon_payment(
+					id,
+					crate::events::PaymentFailureReason::UserAbandoned,
+					&s.events,
+				)
+			})
+		}
+
+		/// `check_retry_payments` with a scripted router (`plan[k]` answers the k-th `find_route`
+		/// call: `Some(scids)` = a route with these parts, `None` = no route). Returns the pushed
+		/// events, the router calls in order (id, route found) and the HTLCs handed to
+		/// `send_payment_along_path` (id, session priv, scid).
+		pub fn check_retry(
+			&self, plan: Vec<Option<Vec<u64>>>,
+		) -> (Vec<String>, Vec<(PaymentId, bool)>, Vec<(PaymentId, [u8; 32], u64)>) {
+			let router = ScriptedRouter {
+				dest: self.dest,
+				plan: Mutex::new(plan.into_iter().collect()),
+				calls: Mutex::new(Vec::new()),
+			};
+			let sent = Mutex::new(Vec::new());
+			let evs = self.pushed(|s| {
+				let logger = WithContext::from(&NoLog, None, None, None);
+				s.payments.check_retry_payments(
+					&router,
+					|| Vec::new(),
+					|| InFlightHtlcs::new(),
+					&s.keys,
+					&s.keys,
+					0,
+					&s.events,
+					|args| {
+						sent.lock().unwrap().push((
+							args.payment_id,
+							args.session_priv_bytes,
+							args.path.hops[0].short_channel_id,
+						));
+						Ok(())
+					},
+					&logger,
+				);
+			});
+			let calls = router.calls.lock().unwrap().clone();
+			let sent = sent.lock().unwrap().clone();
+			(evs, calls, sent)
+		}
+
+		/// `remove_stale_payments` (one timer tick)
+		pub fn tick(&self) -> Vec<String> {
+			self.pushed(|s| s.payments.remove_stale_payments(Duration::from_secs(0), &s.events))
+		}
+
+		/// The user handled (drained) all pending events.
+		pub fn handle(&self) -> usize {
+			let mut q = self.events.lock().unwrap();
+			let n = q.len();
+			q.clear();
+			n
+		}
+
+		/// `insert_from_monitor_on_startup`
+		pub fn insert_from_monitor(
+			&self, id: PaymentId, hash: PaymentHash, session_priv: [u8; 32], scid: u64,
+		) {
+			let p = path(self.dest, scid, self.amt_msat);
+			let logger = WithContext::from(&NoLog, None, None, None);
+			self.payments.insert_from_monitor_on_startup(id, hash, session_priv, &p, 0, &logger);
+		}
+
+		/// Serialize every entry (as `ChannelManager::write` does) and copy the event queue.
+		pub fn persist(&mut self) {
+			let map = self.payments.pending_outbound_payments.lock().unwrap();
+			let entries = map.iter().map(|(id, p)| (*id, p.encode())).collect();
+			let q = self.events.lock().unwrap().clone();
+			core::mem::drop(map);
+			self.snapshot = (entries, q);
+		}
+
+		/// `OutboundPayments::new(<entries read back>)` and the persisted event queue.
+		pub fn restore(&mut self) -> Result<(), String> {
+			let mut map = crate::prelude::new_hash_map();
+			for (id, bytes) in self.snapshot.0.iter() {
+				match <PendingOutboundPayment as MaybeReadable>::read(&mut &bytes[..]) {
+					Ok(Some(p)) => {
+						map.insert(*id, p);
+					},
+					Ok(None) => {},
+					Err(e) => return Err(alloc::format!("{:?}", e)),
+				}
+			}
+			self.payments = OutboundPayments::new(map);
+			self.events = Mutex::new(self.snapshot.1.clone());
+			Ok(())
+		}
+
+		pub fn list(&self) -> Vec<Entry> {
+			let map = self.payments.pending_outbound_payments.lock().unwrap();
+			let mut v: Vec<Entry> = map
+				.iter()
+				.map(|(id, p)| {
+					let (name, extra) = match p {
+						PendingOutboundPayment::Legacy { .. } => ("Legacy", 0),
+						PendingOutboundPayment::AwaitingOffer { .. } => ("AwaitingOffer", 0),
+						PendingOutboundPayment::AwaitingInvoice { expiration, .. } => (
+							"AwaitingInvoice",
+							match expiration {
+								StaleExpiration::TimerTicks(t) => *t,
+								StaleExpiration::AbsoluteTimeout(_) => 0,
+							},
+						),
+						PendingOutboundPayment::InvoiceReceived { .. } => ("InvoiceReceived", 0),
+						PendingOutboundPayment::StaticInvoiceReceived { .. } => {
+							("StaticInvoiceReceived", 0)
+						},
+						PendingOutboundPayment::Retryable { .. } => ("Retryable", 0),
+						PendingOutboundPayment::Fulfilled { timer_ticks_without_htlcs, .. } => {
+							("Fulfilled", *timer_ticks_without_htlcs as u64)
+						},
+						PendingOutboundPayment::Abandoned { .. } => ("Abandoned", 0),
+					};
+					(*id, name, p.remaining_parts(), extra)
+				})
+				.collect();
+			v.sort_by_key(|e| e.0 .0);
+			v
+		}
+
+		pub fn our_node_id(&self) -> PublicKey {
+			self.keys.get_node_id(Recipient::Node).unwrap()
+		}
+	}
+}
